@@ -137,14 +137,20 @@ class World:
 
     def op_construct(self, step):
         spec = step["spec"]
-        try:
-            real = M.build(spec)
-        except Exception as e:
-            raise Violation("exception-in-construction", "%s: %r" % (type(e).__name__, e))
-        o = Obj(real, M.model_from_spec(spec), labels_of_spec(spec))
-        tag_untyped_fresh(o.model)
-        self.pool.append(o)
-        self.check(o, "constructed object %d" % (len(self.pool) - 1))
+        # "twin": the caller builds two objects from the same numpy arrays (atom types, positions, charges, groups); they
+        # are separate objects from then on
+        arrays = M.caller_arrays(spec) if step.get("twin") and len(spec["pos"]) else None
+        for _ in range(2 if arrays is not None else 1):
+            try:
+                real = M.build(spec, arrays)
+            except Exception as e:
+                raise Violation("exception-in-construction", "%s: %r" % (type(e).__name__, e))
+            o = Obj(real, M.model_from_spec(spec), labels_of_spec(spec))
+            tag_untyped_fresh(o.model)
+            self.pool.append(o)
+            self.check(o, "constructed object %d" % (len(self.pool) - 1))
+        if arrays is not None:
+            self.note("two-objects-from-the-same-arrays")
 
     def op_copy(self, step):
         o = self.pool[step["obj"]]
@@ -532,7 +538,7 @@ def make_machine(stats, tier, ctx):
         def start(self, data):
             stats.evaluations += 1
             spec = small_spec(data.draw)
-            self.run({"op": "construct", "spec": spec})
+            self.run({"op": "construct", "spec": spec, "twin": data.draw(hperm.integers(0, 3)) == 0})
 
         def pick(self, data, need_atoms=0, need_cell=False):
             cands = [i for i, o in enumerate(self.w.pool) if len(o.model["atoms"]) >= need_atoms and
@@ -544,7 +550,7 @@ def make_machine(stats, tier, ctx):
         @precondition(lambda self: not self.skip and len(self.w.pool) < 6)
         @rule(data=st.data())
         def construct(self, data):
-            self.run({"op": "construct", "spec": small_spec(data.draw)})
+            self.run({"op": "construct", "spec": small_spec(data.draw), "twin": data.draw(hperm.integers(0, 3)) == 0})
 
         @precondition(lambda self: not self.skip and len(self.w.pool) < 6)
         @rule(data=st.data())
@@ -768,6 +774,7 @@ def enum_cases(tier, seed):
         for d in range(1, depth + 1):
             for seq in itertools.product(SYMBOLIC, repeat=d):
                 out.append({"start": si, "seq": list(seq)})
+                out.append({"start": si, "seq": list(seq), "twin": True})
     return out
 
 
@@ -775,7 +782,7 @@ def enum_oracle(case, stats):
     specs = start_specs()
     w = World(stats)
     with_tables = case["start"] == 0
-    w.apply({"op": "construct", "spec": specs[case["start"]]})
+    w.apply({"op": "construct", "spec": specs[case["start"]], "twin": bool(case.get("twin"))})
     cur = 0
     applied = 0
     for sym in case["seq"]:
